@@ -17,14 +17,17 @@ func All() map[string]orch.Property {
 	m := map[string]orch.Property{}
 	for _, p := range []orch.Property{
 		&C01{},
+		&C02{},
 		&C03{},
 		&C07{},
 		&C10{},
 		&C11{},
+		&C12{},
 		&C15{},
 		&C16{},
 		&C17{},
 		&C18{},
+		&C19{},
 	} {
 		m[p.ID()] = p
 	}
